@@ -80,7 +80,7 @@ fn growing_input(ctx: &mut Ctx) -> Option<crate::props::c01::Made> {
     if recon.len() > initial.len() {
         simkit::count("probe:appended-bytes-archived");
     }
-    Some(crate::props::c01::Made { spec, source: Arc::new(recon), archive, writer: "cli-file", desc })
+    Some(crate::props::c01::Made { spec, source: Arc::new(recon), archive, writer: "cli-file(growing input)", desc })
 }
 
 pub fn run(ctx: &mut Ctx) {
@@ -112,8 +112,26 @@ pub fn run(ctx: &mut Ctx) {
         bad!("chunk-data-offset", "chunk data offset {} is not the header length {}", ra.chunk_data_offset, ra.header_len);
     }
     let d = &ra.dict;
-    // expected chunk sequence from the reference chunker
-    let chunks = ref_chunks(&spec.cfg, src);
+    // expected chunk sequence from the reference chunker. A file that grew while it was read is
+    // not one byte stream: when compress met its (temporary) end it closed a chunk there, and
+    // went on when more bytes appeared (O4's harmless face). Where those cuts fall is no
+    // property's business; for such an input the chunk sequence is taken from the archive itself
+    // and everything below checks that the archive is consistent with it.
+    let chunks = if m.writer.contains("growing") {
+        let mut v = Vec::new();
+        let mut o = 0usize;
+        for &i in &d.rebuild_order {
+            let Some(x) = d.descriptors.get(i as usize) else { bad!("rebuild-order", "rebuild index {} out of range", i) };
+            v.push((o, x.source_size as usize));
+            o += x.source_size as usize;
+        }
+        if o != src.len() {
+            bad!("rebuild-order", "the chunk sizes in rebuild order sum to {}, the archive unpacks to {} bytes", o, src.len());
+        }
+        v
+    } else {
+        ref_chunks(&spec.cfg, src)
+    };
     let hl = spec.hash_len;
     let mut uniq: Vec<(Vec<u8>, usize)> = Vec::new(); // (full hash, size) in order of first occurrence
     let mut order: Vec<u32> = Vec::new();
